@@ -246,11 +246,27 @@ fn lit(n: i64) -> E {
     }
 }
 
+/// A constant with its sign as the parser sees it: a minus in front of an unsigned literal.
+fn signed(s: &str) -> E {
+    match s.strip_prefix('-') {
+        Some(rest) => E::Neg(Box::new(E::Lit(rest.to_string()))),
+        None => E::Lit(s.to_string()),
+    }
+}
+
 fn item(t: &mut Tape) -> E {
     match t.weighted(&[5, 4, 3, 2, 2, 1, 1]) {
         0 => E::Str(t.pick(&["A", "HELLO", "", "é", "日本語", "x y", "12345678901234", "1234567890123", "*"]).to_string()),
         1 => lit(t.range(-1000, 1000)),
+        2 if t.chance(1, 10) => {
+            // fractional columns are rounded; beyond ±255 is an error
+            E::Call("TAB", vec![signed(t.pick_str(&["14.4", "13.6", "-.4", "-13.6", "256", "-256", "300", "1E5", "20.4#"]))])
+        }
         2 => E::Call("TAB", vec![lit(*t.pick(&[0i64, 1, 5, 13, 14, 15, 20, 28, 40, 255, -1, -5, -14]))]),
+        3 if t.chance(1, 12) => {
+            // counts below 0 (also between -1 and 0: the floor is -1) and above 255 are errors
+            E::Call("SPC", vec![signed(t.pick_str(&["-.5", "-1", "-.25#", "-.01", "256", "255.5", "255.99999999#", "300", "-32768"]))])
+        }
         3 => {
             if t.chance(1, 5) {
                 // a fractional count is floored, in the type it comes in
@@ -328,6 +344,10 @@ fn check_layout(t: &mut Tape, ctx: &Ctx) -> Outcome {
                 }
                 _ => {
                     let p = print_list(t);
+                    let text = render_stmts(&[p.clone()]);
+                    if ["TAB(256)", "TAB(-256)", "TAB(300)", "TAB(1E5)", "SPC(-", "SPC(256)", "SPC(300)"].iter().any(|x| text.contains(x)) {
+                        has_error = true;
+                    }
                     if let Stmt::Print(items) = &p {
                         if matches!(items.last(), Some(PItem::Semi) | Some(PItem::Comma)) {
                             carried = true;
